@@ -40,17 +40,38 @@ def lost_confirmed(ctx, floors):
 
 def common(ctx):
     """Generic rules applied, in both tiers, to every function the property's own check placed an obligation on."""
-    from .rules import r_fresh_result, r_roots_rounded, r_scalar_dim_expand, r_subsystem_count
+    from .rules import r_fresh_result, r_values_not_rounded, r_hermitian_solver_operand, r_roots_rounded, r_scalar_dim_expand, r_subsystem_count
 
     ctx.rule("R-SHAPE", "the subsystem count of a two-row dimension table is its number of columns; inferred dimensions (roots of sizes) are rounded")
     ctx.rule("R-EFFECT", "array-returning functions are not memoised: every call returns a fresh object")
+    if ctx.prop == "C17":
+        ctx.rule("R-ROUND", "no named-state / standard-matrix constructor rounds what it returns to a fixed number of decimals")
     ctx.rule("R-KIND", "a scalar `dim` expands to [dim, total/dim]: the scalar names the first local dimension, as the list form does")
+    # freshness of results: every function defined in the property's anchor files (not only those the property's own check visits)
+    try:
+        import json as _json
+
+        anchors = set()
+        with open(os.path.join(os.path.dirname(os.path.dirname(os.path.abspath(__file__))), "properties.jsonl")) as fh:
+            for line in fh:
+                pr = _json.loads(line)
+                if pr["id"] == ctx.prop:
+                    anchors = set(pr["anchors"]["files"])
+        for q, f in sorted(ctx.model.functions.items()):
+            in_anchor = f.file in anchors or any(a.endswith("/") and f.file.startswith(a) for a in anchors)
+            if in_anchor and q not in ctx.analysed_functions and f.parent is None:
+                r_fresh_result(ctx, f)
+            if in_anchor and f.parent is None and ctx.prop == "C17":
+                r_values_not_rounded(ctx, f)
+    except (OSError, ValueError, KeyError):
+        pass
     for q in sorted(ctx.analysed_functions):
         f = ctx.model.functions.get(q)
         if f is not None:
             r_scalar_dim_expand(ctx, f)
             r_fresh_result(ctx, f)
             r_roots_rounded(ctx, f)
+            r_hermitian_solver_operand(ctx, f)
             if ctx.prop in ("C01", "C02", "C03"):  # properties that quantify over n-partite operators with separate row / column dimensions
                 r_subsystem_count(ctx, f)
 
